@@ -337,8 +337,8 @@ Definition trim_line (t : list Z) (segs : line) (start end_ : Z) : lres line :=
 Definition render_seg (t : list Z) (s : seg) : lres (list Z) :=
   if negb (seg_valid s) then LErr ValueError                              (* LayoutSegment(seg) *)
   else
-    (* if s.end: text[s.offs:s.end]  elif s.text: s.text  elif s.offs: (if s.sc:) spaces  else: spaces
-       -- the last three arms all contribute b"".rjust(s.sc) *)
+    (* if s.end: text[s.offs:s.end]  elif s.text: s.text  elif s.offs: (if s.sc:) spaces  elif s.sc: spaces
+       -- the last arms all contribute b"".rjust(s.sc) (nothing when s.sc == 0) *)
     match s with
     | SText sc offs e => if e =? 0 then LOk (spaces sc) else LOk (slice t offs e)
     | SIns sc offs txt => match txt with [] => LOk (spaces sc) | _ => LOk txt end
@@ -399,7 +399,7 @@ End WithWidth.
 
 (* ---------- wire format (harness <-> extracted model) ----------
    case  = wrap align width ntable (cp w)* ntext cp* nell cp*
-   reply = layout | rows | pack cols rows | pack() cols rows | render
+   reply = layout | rows | pack cols rows | pack() cols rows | render | rows at natural width | render at natural width
      layout = 1 nlines (nsegs seg* )*  |  0 errcode       seg = 1 sc offs end | 2 sc offs n cp* | 3 sc offs | 4 sc
      rows   = 1 n | 0 errcode           pack = 1 c r | 0 errcode
      render = 1 nrows (n cp* )* | 0 errcode                                  *)
@@ -452,6 +452,10 @@ Definition run_case (l : list Z) : list Z :=
                   ++ enc_lres (fun p => [fst p; snd p]) (text_pack cw t width align wrap ell)
                   ++ (let p := text_pack_fixed cw t in [1; fst p; snd p])
                   ++ enc_lres (fun rows => zlen rows :: flat_map enc_list rows) (text_render cw t width align wrap ell)
+                  (* natural size: rows((cols,)) and render(()) at cols = pack(())[0] *)
+                  ++ (let w0 := fst (text_pack_fixed cw t) in
+                      enc_lres (fun n => [n]) (text_rows cw t w0 align wrap ell)
+                      ++ enc_lres (fun rows => zlen rows :: flat_map enc_list rows) (text_render cw t w0 align wrap ell))
               | None => [-1]
               end
           | None => [-1]
